@@ -274,16 +274,24 @@ def chunks (el : Nat) : Nat → Bytes → List Bytes
   | 0, _ => []
   | n + 1, bs => bs.take el :: chunks el n (bs.drop el)
 
-/-- physical slot indexes shown for a ring buffer: `parse_vec_dequeue_inner`'s `slice_ranges` -/
+/-- `parse_vec_dequeue_inner`'s `slice_ranges` for a ring of capacity `cap`: (first slot of the head part, length of the
+    head part, length of the part that wrapped to slot 0) -/
+def ringRanges (cap head len : Nat) : Nat × Nat × Nat :=
+  let ws := if cap = 0 then 0 else head % cap
+  let headLen := cap - ws
+  if headLen ≥ len then (ws, len, 0) else (ws, cap - ws, len - headLen)
+
+/-- physical slot indexes shown for a ring buffer: the two ranges chained -/
 def ringIdx (cap head len : Nat) : List Nat :=
   let ws := if cap = 0 then 0 else head % cap
   let headLen := cap - ws
   if headLen ≥ len then (List.range len).map (ws + ·)
   else (List.range (cap - ws)).map (ws + ·) ++ List.range (len - headLen)
 
-/-- the slots the decoder shows for a `VecDeque` whose header says `capRaw`, `head`, `lenRaw` (element size ≠ 0) -/
+/-- the slots the decoder shows for a `VecDeque` whose header says `capRaw`, `head`, `lenRaw` (element size ≠ 0): the ring
+    positions are computed with the REAL capacity, `guard_len` limits only how many elements are shown -/
 def dequeIdx (capRaw head lenRaw : Nat) : List Nat :=
-  ringIdx (guardCap capRaw).toNat head (guardLen lenRaw).toNat
+  ringIdx capRaw head (guardLen lenRaw).toNat
 
 /-- `match_empty_or_deleted().invert()` of one group: positions (< 16) whose control byte has the top bit clear,
     ascending — what `lowest_set_bit` / `remove_lowest_bit` enumerate -/
@@ -673,15 +681,20 @@ def specialize (c : Ctx) (rec : Rec) (k : SpecKind) (sv : Val) (id : Nat) (tps :
     if len0 < 0 then none else
     let len := (guardLen len0).toNat
     let el ← c.size inner
-    let cap ← if el = 0 then some (2 ^ 64 - 1) else (extractCapacity c.ver sv).map fun x => (guardCap x).toNat
+    -- the REAL capacity positions the ring; `guard_cap` only limits the capacity that is shown
+    let cap ← if el = 0 then some (2 ^ 64 - 1) else extractCapacity c.ver sv
     let head0 ← assumeScalarNumber sv "head"
     -- `… as usize`: a head ≥ 2^63 (zero-sized elements: the ring index wraps freely) comes back from i64 unchanged
     let head := (head0 % (2 ^ 64 : Nat)).toNat
-    let slots := ringIdx cap head len
+    let r := ringRanges cap head len
     let p ← assumePointer sv "pointer"
-    let buf ← c.rd p (cap * el)
-    let items ← parseSlots rec inner el p buf slots
-    some (.specVec true sv (vecStructure c sv.tyName inner items (if el = 0 then 0 else cap) tps))
+    -- only the shown slots are read: the head part at its slot, the wrapped part at slot 0 (checked address arithmetic)
+    if p + (r.1 + r.2.1) * el ≥ 2 ^ 64 ∨ p + r.2.2 * el ≥ 2 ^ 64 then none else
+    let d0 ← c.rd (p + r.1 * el) (r.2.1 * el)
+    let d1 ← c.rd p (r.2.2 * el)
+    let items0 ← parseSlots rec inner el (p + r.1 * el) d0 (List.range r.2.1)
+    let items1 ← parseSlots rec inner el p d1 (List.range r.2.2)
+    some (.specVec true sv (vecStructure c sv.tyName inner (items0 ++ items1) (if el = 0 then 0 else (guardCap cap).toNat) tps))
   | .hashmap | .hashset => do
     let ctrl ← assumePointer sv "pointer"
     let mask ← assumeScalarNumber sv "bucket_mask"
